@@ -124,14 +124,21 @@ func buildEvil(bl []uint64, events []equivocation) *evil {
 // answer assembles the DualProof the way ImmuStore.DualProof does, over the evil structure.
 // srcHdr/tgtHdr are the headers the server chooses to show; lieSrc makes it rewrite the source header's BlRoot
 // to match the target's tree.
-func (e *evil) answer(srcHdr, tgtHdr *store.TxHeader, lieSrc bool) (*store.DualProof, error) {
-	t, err := e.treeFor(tgtHdr.ID)
+// treeOf names the tx whose version of the tree is used (normally the target); when it is not the target's own, the
+// server also rewrites the target header's BlRoot to match (lying target header).
+func (e *evil) answer(srcHdr, tgtHdr *store.TxHeader, lieSrc bool, treeOf uint64) (*store.DualProof, error) {
+	t, err := e.treeFor(treeOf)
 	if err != nil {
 		return nil, err
 	}
 	src, tgt := cloneHdr(srcHdr), cloneHdr(tgtHdr)
 	if lieSrc && src.BlTxID > 0 {
 		if src.BlRoot, err = t.RootAt(src.BlTxID); err != nil {
+			return nil, err
+		}
+	}
+	if treeOf != tgt.ID && tgt.BlTxID > 0 {
+		if tgt.BlRoot, err = t.RootAt(tgt.BlTxID); err != nil {
 			return nil, err
 		}
 	}
@@ -150,7 +157,7 @@ func (e *evil) answer(srcHdr, tgtHdr *store.TxHeader, lieSrc bool) (*store.DualP
 		if src.ID < tgt.BlTxID {
 			p.TargetBlTxAlh = e.tx(tgt.BlTxID).alh // must start the linear proof towards the target
 		} else {
-			p.TargetBlTxAlh = e.leafData(tgt.ID, tgt.BlTxID) // only has to be the last leaf
+			p.TargetBlTxAlh = e.leafData(treeOf, tgt.BlTxID) // only has to be the last leaf
 		}
 		if p.LastInclusionProof, err = t.InclusionProof(tgt.BlTxID, tgt.BlTxID); err != nil {
 			return nil, err
@@ -179,7 +186,7 @@ func (e *evil) answer(srcHdr, tgtHdr *store.TxHeader, lieSrc bool) (*store.DualP
 			}
 			la.InclusionProofs = append(la.InclusionProofs, ip)
 			in := e.tx(k + 1).inner
-			if k+1 == end && src.ID >= tgt.BlTxID && e.activeIn(tgt.ID, end) {
+			if k+1 == end && src.ID >= tgt.BlTxID && e.activeIn(treeOf, end) {
 				in = refInner(e.tx(end).alt) // chain ends in the (alternative) last leaf
 			}
 			la.LinearProofTerms = append(la.LinearProofTerms, in)
@@ -195,6 +202,7 @@ type step struct {
 	srcAlh   H      // Alh on the source side (trusted state, or the claimed old tx)
 	accepted bool
 	lieSrc   bool
+	lieTgt   bool
 	branch   string // "merkle" (source < target.BlTxID) or "linear"
 }
 
@@ -213,12 +221,12 @@ type session struct {
 	steps    []step
 }
 
-func (s *session) request(t uint64, lieSrc bool) (st step, alh H, err error) {
+func (s *session) request(t uint64, lieSrc, lieTgt bool) (st step, alh H, err error) {
 	e := s.e
 	var p *store.DualProof
 	st = step{from: s.state, to: t, lieSrc: lieSrc}
 	if s.state <= t {
-		p, err = e.answer(e.tx(s.state).hdr, e.tx(t).hdr, lieSrc)
+		p, err = e.answer(e.tx(s.state).hdr, e.tx(t).hdr, lieSrc, t)
 		if err != nil {
 			return st, H{}, err
 		}
@@ -226,10 +234,16 @@ func (s *session) request(t uint64, lieSrc bool) (st step, alh H, err error) {
 	} else {
 		// reading an old tx: show the alternative if the trusted tree holds it
 		src := e.tx(t).hdr
+		treeOf := s.state
 		if t < e.tx(s.state).hdr.BlTxID && e.activeIn(s.state, t) {
 			src = e.tx(t).alt
+		} else if lieTgt && t < e.tx(s.state).hdr.BlTxID && e.activeIn(e.n, t) {
+			// the trusted state's own tree holds the real leaf: show the alternative anyway, with a target header
+			// whose BlRoot was rewritten to a tree that holds it
+			src, treeOf = e.tx(t).alt, e.n
+			st.lieTgt = true
 		}
-		p, err = e.answer(src, e.tx(s.state).hdr, false)
+		p, err = e.answer(src, e.tx(s.state).hdr, false, treeOf)
 		if err != nil {
 			return st, H{}, err
 		}
@@ -318,7 +332,7 @@ func TestEquivocationSessions(t *testing.T) {
 				continue // no tree ever covers p: nothing to equivocate about
 			}
 			from := first
-			if rapid.IntRange(0, 3).Draw(rt, "rewriteLater") == 0 {
+			if rapid.IntRange(0, 2).Draw(rt, "rewriteLater") == 0 {
 				from = uint64(rapid.IntRange(int(first), n).Draw(rt, "rewriteFrom")) // the tree is rewritten after it was published
 			}
 			events = append(events, equivocation{p: p, from: from})
@@ -359,11 +373,18 @@ func TestEquivocationSessions(t *testing.T) {
 				t = uint64(n)
 			}
 			lie := t > s.state && rapid.IntRange(0, 4).Draw(rt, "lieSrc") == 0
-			st, alh, err := s.request(t, lie)
+			lieTgt := t < s.state && rapid.Bool().Draw(rt, "lieTgt")
+			st, alh, err := s.request(t, lie, lieTgt)
 			if err != nil {
 				rt.Fatalf("harness: evil answer (%d -> %d): %v", s.state, t, err)
 			}
 			c.Descf("%d", t)
+			if st.lieTgt {
+				c.Label("lying-target-header-attempted")
+			}
+			if st.lieSrc {
+				c.Label("lying-source-header-attempted")
+			}
 			if !st.accepted {
 				continue
 			}
@@ -390,6 +411,17 @@ func TestEquivocationSessions(t *testing.T) {
 					c.Failf(rt, nil, "CONTRADICTING TREE ACCEPTED: verify(%d->%d) [source BlTxID %d, target BlTxID %d, Merkle branch, lying source header: %v] succeeded although the "+
 						"target's Merkle tree holds a different transaction at position %d than the chain of the source Alh (inclusion / linear-advance must reject); %s",
 						st.src, st.tgt, e.tx(st.src).hdr.BlTxID, e.tx(st.tgt).hdr.BlTxID, st.lieSrc, p, ctx)
+				}
+			}
+			// (3) an old transaction accepted against the trusted state is the one its chain, or at least its own tree, holds
+			if st.to < st.from {
+				okClaim := alh == e.tx(t).alh || (t <= e.tx(st.from).hdr.BlTxID && alh == e.leafData(st.from, t))
+				if !okClaim {
+					c.Failf(rt, nil, "FALSE CLAIM ACCEPTED: client trusting (%d, Alh) accepted for tx %d an Alh that is neither in the chain nor in the Merkle tree the trusted "+
+						"header commits to (lying target header: %v); %s", st.from, t, st.lieTgt, ctx)
+				}
+				if st.lieTgt {
+					c.Label("lying-target-header")
 				}
 			}
 			// (2) observable: two different transactions accepted under one id
